@@ -371,6 +371,7 @@ pub fn run(run: &Run) {
     idx.par_iter().for_each(|&i0| {
         let i = (i0 + seed) % total;
         let text = &all[i];
+        let _w = run.watch("program", "program", text);
         let Ok(prog) = text.parse::<asp::Program>() else {
             run.skipped.fetch_add(1, std::sync::atomic::Ordering::Relaxed);
             return;
@@ -429,6 +430,7 @@ pub fn run(run: &Run) {
     run.set_extra("theories_generated", json!(theories.len()));
     let active = vec![Val::Int(1), Val::Int(2), Val::sym("a")];
     theories.par_iter().for_each(|text| {
+        let _w = run.watch("theory", "theory", text);
         let Ok(t) = text.parse::<fol::Theory>() else {
             run.skipped.fetch_add(1, std::sync::atomic::Ordering::Relaxed);
             return;
